@@ -510,6 +510,171 @@ theorem finding_aggregates :
     Spec.aggregate .max [(.text [55] : Spec.Val Int), .text [97], .num (-3)] = .num (-3) := by
   decide +kernel
 
+/-! ## defined names -/
+
+/-- no two definitions share name and scope with different targets (SetDefinedName rejects a
+second definition of the same name at the same scope) -/
+def FunctionalDefs (defs : List DefName) : Prop :=
+  ∀ d1 ∈ defs, ∀ d2 ∈ defs, d1.name = d2.name → d1.scope = d2.scope → d1.refersTo = d2.refersTo
+
+def NonEmptyRefs (defs : List DefName) : Prop := ∀ d ∈ defs, d.refersTo ≠ []
+
+theorem scan_wb (n cur : Str) (defs : List DefName) (wb ws r : Str)
+    (hf : ∀ d ∈ defs, d.name = n → d.scope = sWorkbook → d.refersTo = r) :
+    (Impl.scanNames n cur defs (wb, ws)).1 =
+      if defs.any (fun d => decide (d.name = n ∧ d.scope = sWorkbook)) then r else wb := by
+  induction defs generalizing wb ws with
+  | nil => simp [Impl.scanNames]
+  | cons d rest ih =>
+    have hr : ∀ d ∈ rest, d.name = n → d.scope = sWorkbook → d.refersTo = r :=
+      fun e he => hf e (by simp [he])
+    by_cases hn : d.name = n
+    · by_cases hs : d.scope = sWorkbook
+      · have := hf d (by simp) hn hs
+        simp [Impl.scanNames, hn, hs, ih _ _ hr, this]
+      · simp [Impl.scanNames, hn, hs, ih _ _ hr]
+    · simp [Impl.scanNames, hn, ih _ _ hr]
+
+theorem scan_ws (n cur : Str) (defs : List DefName) (wb ws r : Str)
+    (hf : ∀ d ∈ defs, d.name = n → d.scope = cur → d.refersTo = r) :
+    (Impl.scanNames n cur defs (wb, ws)).2 =
+      if defs.any (fun d => decide (d.name = n ∧ d.scope = cur)) then r else ws := by
+  induction defs generalizing wb ws with
+  | nil => simp [Impl.scanNames]
+  | cons d rest ih =>
+    have hr : ∀ d ∈ rest, d.name = n → d.scope = cur → d.refersTo = r :=
+      fun e he => hf e (by simp [he])
+    by_cases hn : d.name = n
+    · by_cases hs : d.scope = cur
+      · have := hf d (by simp) hn hs
+        simp [Impl.scanNames, hn, hs, ih _ _ hr, this]
+      · simp [Impl.scanNames, hn, hs, ih _ _ hr]
+    · simp [Impl.scanNames, hn, ih _ _ hr]
+
+/-- clause "references resolve … through defined names": on every list of definitions that
+SetDefinedName can produce (no duplicate name+scope, non-empty targets), in whatever order they
+were created, the two-slot scan of `getDefinedNameRefTo` returns exactly what Excel's rule
+prescribes — the definition scoped to the formula's sheet if there is one, else the
+workbook-scoped one, else nothing; definitions scoped to other sheets are invisible. -/
+theorem defname_lookup_correct (defs : List DefName) (n cur : Str)
+    (hF : FunctionalDefs defs) (hN : NonEmptyRefs defs) :
+    Impl.definedNameRefTo defs n cur = (Spec.resolveName defs n cur).getD [] := by
+  unfold Impl.definedNameRefTo Spec.resolveName
+  -- the sheet-scoped slot
+  cases hws : defs.find? (fun d => decide (d.name = n ∧ d.scope = cur)) with
+  | some d =>
+    have hd := List.mem_of_find?_eq_some hws
+    have hp := List.find?_some hws
+    simp only [decide_eq_true_eq] at hp
+    have hf : ∀ e ∈ defs, e.name = n → e.scope = cur → e.refersTo = d.refersTo :=
+      fun e he h1 h2 => hF e he d hd (h1.trans hp.1.symm) (h2.trans hp.2.symm)
+    have hany : defs.any (fun d => decide (d.name = n ∧ d.scope = cur)) = true := by
+      simp only [List.any_eq_true]
+      exact ⟨d, hd, by simp [hp]⟩
+    have := scan_ws n cur defs [] [] d.refersTo hf
+    simp only [hany, if_true] at this
+    simp [this, hN d hd]
+  | none =>
+    have hnone : defs.any (fun d => decide (d.name = n ∧ d.scope = cur)) = false := by
+      rw [List.find?_eq_none] at hws
+      simp only [List.any_eq_false]
+      intro x hx
+      simpa using hws x hx
+    have h2 := scan_ws n cur defs [] [] [] (fun e he h1 h2 => by
+      have := List.any_eq_false.mp hnone e he
+      simp [h1, h2] at this)
+    simp only [hnone, Bool.false_eq_true, if_false] at h2
+    simp only [h2, ne_eq, not_true_eq_false, if_false]
+    cases hwb : defs.find? (fun d => decide (d.name = n ∧ d.scope = sWorkbook)) with
+    | some d =>
+      have hd := List.mem_of_find?_eq_some hwb
+      have hp := List.find?_some hwb
+      simp only [decide_eq_true_eq] at hp
+      have hf : ∀ e ∈ defs, e.name = n → e.scope = sWorkbook → e.refersTo = d.refersTo :=
+        fun e he h1 h2 => hF e he d hd (h1.trans hp.1.symm) (h2.trans hp.2.symm)
+      have hany : defs.any (fun d => decide (d.name = n ∧ d.scope = sWorkbook)) = true := by
+        simp only [List.any_eq_true]
+        exact ⟨d, hd, by simp [hp]⟩
+      have := scan_wb n cur defs [] [] d.refersTo hf
+      simp only [hany, if_true] at this
+      simp [this]
+    | none =>
+      have hnone' : defs.any (fun d => decide (d.name = n ∧ d.scope = sWorkbook)) = false := by
+        rw [List.find?_eq_none] at hwb
+        simp only [List.any_eq_false]
+        intro x hx
+        simpa using hwb x hx
+      have := scan_wb n cur defs [] [] [] (fun e he h1 h2 => by
+        have := List.any_eq_false.mp hnone' e he
+        simp [h1, h2] at this)
+      simp only [hnone', Bool.false_eq_true, if_false] at this
+      simp [this]
+
+/-- Excel's rule itself does not depend on the order of the definitions … -/
+theorem resolveName_order_independent (defs defs' : List DefName) (n cur : Str)
+    (hmem : ∀ d, d ∈ defs ↔ d ∈ defs') (hF : FunctionalDefs defs) :
+    Spec.resolveName defs n cur = Spec.resolveName defs' n cur := by
+  have hF' : FunctionalDefs defs' :=
+    fun d1 h1 d2 h2 => hF d1 ((hmem d1).mpr h1) d2 ((hmem d2).mpr h2)
+  -- find? on either list yields a match with the same target, or none on both
+  have key : ∀ sc, (defs.find? (fun d => decide (d.name = n ∧ d.scope = sc))).map (·.refersTo) =
+      (defs'.find? (fun d => decide (d.name = n ∧ d.scope = sc))).map (·.refersTo) := by
+    intro sc
+    cases h1 : defs.find? (fun d => decide (d.name = n ∧ d.scope = sc)) with
+    | none =>
+      rw [List.find?_eq_none] at h1
+      have : defs'.find? (fun d => decide (d.name = n ∧ d.scope = sc)) = none := by
+        rw [List.find?_eq_none]
+        intro x hx
+        exact h1 x ((hmem x).mpr hx)
+      rw [this]
+    | some d =>
+      have hd := List.mem_of_find?_eq_some h1
+      have hp := List.find?_some h1
+      cases h2 : defs'.find? (fun d => decide (d.name = n ∧ d.scope = sc)) with
+      | none =>
+        rw [List.find?_eq_none] at h2
+        exact absurd hp (h2 d ((hmem d).mp hd))
+      | some d' =>
+        have hd' := List.mem_of_find?_eq_some h2
+        have hp' := List.find?_some h2
+        simp only [decide_eq_true_eq] at hp hp'
+        have := hF d hd d' ((hmem d').mpr hd') (hp.1.trans hp'.1.symm) (hp.2.trans hp'.2.symm)
+        simp [this]
+  have shape : ∀ l : List DefName, Spec.resolveName l n cur =
+      match (l.find? (fun d => decide (d.name = n ∧ d.scope = cur))).map (·.refersTo) with
+      | some r => some r
+      | none => (l.find? (fun d => decide (d.name = n ∧ d.scope = sWorkbook))).map (·.refersTo) := by
+    intro l
+    unfold Spec.resolveName
+    cases l.find? (fun d => decide (d.name = n ∧ d.scope = cur)) <;> rfl
+  rw [shape defs, shape defs', key cur, key sWorkbook]
+
+/-- … and therefore neither does `getDefinedNameRefTo`: two definition lists with the same
+entries (any creation order, as stored in workbook.xml) resolve every name identically from
+every sheet. (The seeded change "last visible match wins" violates exactly this.) -/
+theorem defname_order_independent (defs defs' : List DefName) (n cur : Str)
+    (hmem : ∀ d, d ∈ defs ↔ d ∈ defs') (hF : FunctionalDefs defs) (hN : NonEmptyRefs defs) :
+    Impl.definedNameRefTo defs n cur = Impl.definedNameRefTo defs' n cur := by
+  have hF' : FunctionalDefs defs' :=
+    fun d1 h1 d2 h2 => hF d1 ((hmem d1).mpr h1) d2 ((hmem d2).mpr h2)
+  have hN' : NonEmptyRefs defs' := fun d h => hN d ((hmem d).mpr h)
+  rw [defname_lookup_correct defs n cur hF hN, defname_lookup_correct defs' n cur hF' hN',
+    resolveName_order_independent defs defs' n cur hmem hF]
+
+/-- non-vacuity / the witness of the seeded change: sheet-scoped definition created first, then
+the workbook-scoped one; from that sheet the sheet-scoped target wins, from another sheet the
+workbook one, a name scoped to another sheet only is invisible -/
+theorem defname_examples :
+    let d (n sc r : Str) : DefName := { name := n, scope := sc, refersTo := r }
+    let defs := [d [114] [83, 50] [66], d [114] sWorkbook [65], d [113] [83, 51] [67]]
+    Impl.definedNameRefTo defs [114] [83, 50] = [66] ∧
+    Impl.definedNameRefTo defs [114] [83, 49] = [65] ∧
+    Impl.definedNameRefTo defs [113] [83, 49] = [] ∧
+    Spec.resolveName defs [114] [83, 50] = some [66] ∧
+    Spec.resolveName defs [113] [83, 49] = none := by
+  decide +kernel
+
 /-! ## where the current code deviates from Excel: witnesses on the integer instance -/
 
 section findings
